@@ -6,6 +6,7 @@ import (
 	"os"
 	"os/exec"
 	"path/filepath"
+	"regexp"
 	"sort"
 	"strings"
 
@@ -67,6 +68,21 @@ func Lookalikes() []Lookalike {
 		one("delete1", "func delete(a uint64) uint64 {\n\treturn a + 1\n}\n", "\treturn delete(x) + y\n"),
 		one("copy1", "func copy(a uint64) uint64 {\n\treturn a + 1\n}\n", "\treturn copy(x) + y\n"),
 		one("uint64_func", "func uint32(a uint64) uint64 {\n\treturn a + 1\n}\n", "\treturn uint32(x) + y\n"),
+		// packages whose path merely contains a recognised name (suffix, prefix, inner component)
+		pkg("fairsync", "fairsync", "package fairsync\n\ntype Mutex struct {\n\tn uint64\n}\n\nfunc (m *Mutex) Lock() {\n\tm.n = m.n + 1\n}\n\nfunc (m *Mutex) Unlock() {\n\tm.n = m.n + 10\n}\n\nfunc Count(m *Mutex) uint64 {\n\treturn m.n\n}\n", "\tm := new(fairsync.Mutex)\n\tm.Lock()\n\tm.Unlock()\n\treturn fairsync.Count(m) + x + y\n"),
+		pkg("syncx", "syncx", "package syncx\n\ntype Mutex struct {\n\tn uint64\n}\n\nfunc (m *Mutex) Lock() {\n\tm.n = m.n + 1\n}\n\nfunc Count(m *Mutex) uint64 {\n\treturn m.n\n}\n", "\tm := new(syncx.Mutex)\n\tm.Lock()\n\treturn syncx.Count(m) + x + y\n"),
+		pkg("mydisk", "mydisk", "package mydisk\n\nfunc Read(a uint64) uint64 {\n\treturn a + 1\n}\n\nfunc Size() uint64 {\n\treturn 77\n}\n", "\treturn mydisk.Read(x) + mydisk.Size() + y\n"),
+		pkg("xmachine", "xmachine", "package xmachine\n\nfunc UInt64Get(b []byte) uint64 {\n\treturn 5\n}\n", "\tb := make([]byte, 8)\n\treturn xmachine.UInt64Get(b) + x + y\n"),
+		pkg("logger", "logger", "package logger\n\nfunc Println(p *uint64) {\n\t*p = 9\n}\n", "\tp := new(uint64)\n\tlogger.Println(p)\n\treturn *p + x + y\n"),
+		// a struct type with the same package name and type name as a local one, other field order
+		la("same_named_struct", map[string]string{
+			"la_same_named_struct/lib/config/l.go": "package config\n\ntype Limits struct {\n\tLo uint64\n\tHi uint64\n}\n\nfunc Span(l Limits) uint64 {\n\treturn l.Hi - l.Lo\n}\n",
+			"la_same_named_struct/a.go":            "package config\n\nimport lib \"lamod/la_same_named_struct/lib/config\"\n\ntype Limits struct {\n\tHi uint64\n\tLo uint64\n}\n\nfunc F(x uint64, y uint64) uint64 {\n\tmine := Limits{Hi: x + 100, Lo: y}\n\ttheirs := lib.Limits{Lo: y, Hi: x + 7}\n\treturn (mine.Hi - mine.Lo) + lib.Span(theirs)*1000 + theirs.Hi\n}\n",
+		}),
+		la("cross_pkg_struct", map[string]string{
+			"la_cross_pkg_struct/store/l.go": "package store\n\nconst Limit uint64 = 10\n\ntype Entry struct {\n\tKey uint64\n\tVal uint64\n}\n\nfunc (e Entry) Sum() uint64 {\n\treturn e.Key + e.Val\n}\n\nfunc Mk(k uint64) Entry {\n\treturn Entry{Key: k, Val: Limit}\n}\n\nfunc Bump(e *Entry) {\n\te.Val = e.Val + 1\n}\n",
+			"la_cross_pkg_struct/a.go":       "package la\n\nimport \"lamod/la_cross_pkg_struct/store\"\n\ntype Table struct {\n\tfirst store.Entry\n\trows  []store.Entry\n}\n\nfunc F(x uint64, y uint64) uint64 {\n\te := store.Entry{Key: x, Val: 1}\n\tt := Table{first: e, rows: make([]store.Entry, 1)}\n\tt.rows[0] = store.Mk(y)\n\tp := &store.Entry{Key: 2, Val: store.Limit}\n\tstore.Bump(p)\n\treturn t.first.Key + t.rows[0].Val*3 + e.Sum() + p.Val\n}\n",
+		}),
 		pkg("plain_pkg_control", "helper", "package helper\n\nfunc Inc(v uint64) uint64 {\n\treturn v + 1\n}\n", "\treturn helper.Inc(x) + y\n"),
 	}
 }
@@ -202,12 +218,17 @@ func RunLookalikes(cfg Cfg, acc *ev.Acc) {
 		}
 		// link the emitted files of the local packages the look-alike imports
 		file.Imports = map[string]*gl.File{}
-		for rel := range l.Files {
+		for rel, src := range l.Files {
 			parts := strings.Split(rel, "/")
-			if len(parts) == 3 {
-				if ib, err := os.ReadFile(filepath.Join(outDir, "lamod", parts[0], parts[1]+".v")); err == nil {
+			if len(parts) >= 3 {
+				// the qualifier in the emitted text is the Go package name
+				qual := parts[len(parts)-2]
+				if m := pkgClauseRe.FindStringSubmatch(src); m != nil {
+					qual = m[1]
+				}
+				if ib, err := os.ReadFile(filepath.Join(append([]string{outDir, "lamod"}, parts[:len(parts)-1]...)...) + ".v"); err == nil {
 					if imf, err := gl.ParseFile(string(ib)); err == nil {
-						file.Imports[parts[1]] = imf
+						file.Imports[qual] = imf
 					}
 				}
 			}
@@ -239,6 +260,8 @@ func RunLookalikes(cfg Cfg, acc *ev.Acc) {
 		}
 	}
 }
+
+var pkgClauseRe = regexp.MustCompile(`(?m)^package (\w+)`)
 
 func firstCategory(stderr string) string {
 	for _, l := range strings.Split(stderr, "\n") {
